@@ -46,6 +46,7 @@ class World:
         self.ifaces: Dict[str, Any] = {}    # "node:port" -> interface (for nic ops)
         self.ip: Dict[str, str] = {}
         self.ftp: Optional[Tuple[str, str]] = None
+        self.env = None
 
     def link_of(self, iface) -> Optional[Tuple[int, bool]]:
         for k, l in enumerate(self.links):
@@ -392,6 +393,22 @@ class Recorder:
         self._patch(WiredNetworkInterface, "disable", mk_en(False, False))
         self._patch(WirelessNetworkInterface, "enable", mk_en(True, True))
         self._patch(WirelessNetworkInterface, "disable", mk_en(True, False))
+
+        from primaite.simulator.network.container import Network
+
+        def mk_pre(orig):
+            def pre_timestep(net, timestep):
+                if net is not rec.w.net:
+                    return orig(net, timestep)
+                marker = {"t": "T", "before": dump(rec.w), "nested": len(rec.stack) > 1}
+                r = orig(net, timestep)
+                marker["after"] = dump(rec.w)
+                marker["zero"] = (all(l.current_load == 0.0 for l in rec.w.links)
+                                  and all(v == 0.0 for v in net.airspace.bandwidth_load.values()))
+                rec.stack[-1].append(marker)
+                return r
+            return pre_timestep
+        self._patch(Network, "pre_timestep", mk_pre)
         return self
 
     def __exit__(self, *exc):
@@ -429,8 +446,10 @@ def tokens(forest: List[dict]) -> List[str]:
             out.append("]")
         elif e["t"] == "E":
             out += ["E", str(e["k"]), "1" if e["end"] else "0", "1" if e["v"] else "0"]
-        else:
+        elif e["t"] == "F":
             out += ["F", str(e["k"]), str(e["end"]), "1" if e["v"] else "0"]
+        else:
+            raise ValueError("tick marker inside an action")
     return out
 
 
@@ -489,6 +508,8 @@ def apply_op(w: World, op: list, t: List[int]):
         w.net.pre_timestep(t[0])
         w.net.apply_timestep(t[0])
         t[0] += 1
+    elif kind == "step":
+        w.env.step(op[1] % w.env.action_space.n)
     elif kind == "ping":
         w.nodes[op[1]].ping(w.ip[op[2]], pings=op[3] if len(op) > 3 else 1)
     elif kind == "arp":
@@ -561,12 +582,55 @@ def _ftp(w: World, size: int, _unused=None):
         dest_folder_name="music")
 
 
+def build_scenario(sc: dict) -> World:
+    """A shipped scenario file as a whole environment; link bandwidths optionally overridden (the YAML `bandwidth` key)."""
+    import logging
+    import yaml
+    from primaite.session.environment import PrimaiteGymEnv
+    from harness.lib.core import SRC
+    cfg = yaml.safe_load((SRC / "config" / "_package_data" / sc["file"]).read_text())
+    cfg["io_settings"] = {"save_agent_actions": False, "save_step_metadata": False, "save_pcap_logs": False, "save_sys_logs": False,
+                          "save_agent_logs": False}
+    if sc.get("bw"):
+        links = cfg["simulation"]["network"].get("links", [])
+        for i, l in enumerate(links):
+            l["bandwidth"] = sc["bw"][i % len(sc["bw"])]
+    cfg.setdefault("game", {})["seed"] = sc.get("seed", 1)
+    logging.disable(logging.CRITICAL)
+    try:
+        with _quiet():
+            env = PrimaiteGymEnv(env_config=cfg)
+            env.reset()
+    finally:
+        logging.disable(logging.NOTSET)
+    w = World()
+    w.env = env
+    w.net = env.game.simulation.network
+    w.links = list(w.net.links.values())
+    w.nodes = dict(w.net.nodes) if isinstance(w.net.nodes, dict) else {}
+    by_hz: Dict[int, Tuple[str, List[Any]]] = {}
+    for node in w.net.nodes.values():
+        for ni in node.network_interfaces.values():
+            if hasattr(ni, "airspace") and hasattr(ni, "frequency") and type(ni).__name__ == "WirelessAccessPoint" \
+                    and type(ni).__module__.endswith("wireless_router"):
+                by_hz.setdefault(ni.frequency.frequency_hz, (ni.frequency.name, []))[1].append(ni)
+    for hz in sorted(by_hz):
+        w.chans.append((hz, by_hz[hz][0], by_hz[hz][1]))
+    return w
+
+
+def _caps(w: World):
+    return ([floor_bytes(l.bandwidth) for l in w.links],
+            [floor_bytes(w.net.airspace.get_frequency_max_capacity_mbps(name)) for _, name, _ in w.chans])
+
+
 def run_impl(case: dict) -> dict:
     """Run one case on the implementation. Returns the protocol lines for the model, the implementation's answers in the
     same format, the raw forests, and what the implementation-side oracle saw."""
+    import logging
     _FTP_N[0] = 0
-    w = build(case["topo"])
-    w.net.pre_timestep(0)  # the construction itself sends gateway hellos; start from a tick boundary
+    w = build_scenario(case["scenario"]) if "scenario" in case else build(case["topo"])
+    w.net.pre_timestep(0)  # construction / reset sends traffic of its own; start from a tick boundary
     lines: List[str] = []
     for l in w.links:
         lines.append(f"link {floor_bytes(l.bandwidth)} {int(bool(l.endpoint_a.enabled))} {int(bool(l.endpoint_b.enabled))}")
@@ -576,76 +640,103 @@ def run_impl(case: dict) -> dict:
     impl = ["ok"] * len(lines)
     forests: List[List[dict]] = []
     oracle: List[dict] = []
+    lcap, ccap = _caps(w)
+    carried = {}      # (medium, k) -> bytes carried since the last tick boundary
+    disabled = set()  # wired links that had an end interface disabled since the last tick boundary
     t = [1]
+
+    def segment(oi: int, seg: List[dict], after: str):
+        forests.append(seg)
+        lines.append(("act " + " ".join(tokens(seg))).strip())
+        impl.append(" ".join(recs(seg)) + " | " + after)
+        # implementation-side oracle, independent of the model
+        for e in walk(seg):
+            if e["t"] == "E" and not e["v"]:
+                disabled.add(e["k"])
+            if e["t"] not in ("S", "W"):
+                continue
+            medium = "wired" if e["t"] == "S" else "wireless"
+            cap = lcap[e["k"]] if e["t"] == "S" else ccap[e["k"]]
+            if e["load1"] > cap:
+                oracle.append({"kind": "load-exceeds-bandwidth", "op": oi, "medium": medium, "k": e["k"], "load": e["load1"], "cap": cap,
+                               "nested": bool(e["children"])})
+            if e["tx"] and e["sc"] != e["sa"]:
+                oracle.append({"kind": "admitted-size-differs-from-loaded-size", "op": oi, "medium": medium, "sc": e["sc"], "sa": e["sa"]})
+            if e["tx"] and e["t"] == "S" and not (e["enS"] and e["enR"]):
+                oracle.append({"kind": "frame-crossed-a-down-link", "op": oi, "medium": medium, "k": e["k"]})
+            if e["tx"] and e["t"] == "W" and not (e["enS"] and all(e.get("rcv_en", []))):
+                oracle.append({"kind": "frame-crossed-a-down-link", "op": oi, "medium": medium, "k": e["k"]})
+            if e["t"] == "S" and e["tx"] and not e["acc"] and e["children"]:
+                oracle.append({"kind": "sends-nested-under-a-rejected-frame", "op": oi, "medium": medium, "k": e["k"]})
+            if e["sc"] is not None and not e["can"] and (e["children"] or e["tx"]):
+                oracle.append({"kind": "refused-frame-was-transmitted", "op": oi, "medium": medium, "k": e["k"]})
+        # the property read literally: bytes carried since the tick began, counted by the rig itself (post-order = completion order)
+        def count(forest):
+            for e in forest:
+                if e["t"] == "E" and not e["v"]:
+                    pass
+                if e["t"] not in ("S", "W"):
+                    continue
+                if e["tx"] and e["acc"]:
+                    count(e["children"])
+                    key = ("wired" if e["t"] == "S" else "wireless", e["k"])
+                    carried[key] = carried.get(key, 0) + e["sa"]
+                    cap = lcap[e["k"]] if e["t"] == "S" else ccap[e["k"]]
+                    if carried[key] > cap:
+                        cause = ("interface-disabled-within-the-tick" if key[0] == "wired" and e["k"] in disabled else "unexplained")
+                        oracle.append({"kind": "carried-data-exceeds-bandwidth", "op": oi, "medium": key[0], "k": e["k"],
+                                       "carried": carried[key], "cap": cap, "cause": cause})
+        count(seg)
+        for k, l in enumerate(w.links):
+            if not l.current_load <= l.bandwidth:
+                oracle.append({"kind": "load-exceeds-bandwidth", "op": oi, "medium": "wired", "k": k, "load": exact_bytes(l.current_load),
+                               "cap": lcap[k], "at": "end-of-op"})
+        for hz, name, ifs in w.chans:
+            if not w.net.airspace.bandwidth_load.get(hz, 0.0) <= w.net.airspace.get_frequency_max_capacity_mbps(name):
+                oracle.append({"kind": "load-exceeds-bandwidth", "op": oi, "medium": "wireless", "k": hz, "at": "end-of-op"})
+
     with Recorder(w) as rec:
         for oi, op in enumerate(case["ops"]):
             err = None
-            if op[0] == "tick":
-                w.net.pre_timestep(t[0])
-                stray = rec.take()
-                lines.append("tick")
-                impl.append(dump(w))
-                for k, l in enumerate(w.links):
-                    if l.current_load != 0.0:
-                        oracle.append({"kind": "load-not-zero-after-tick", "op": oi, "medium": "wired", "k": k})
-                if any(v != 0.0 for v in w.net.airspace.bandwidth_load.values()):
-                    oracle.append({"kind": "load-not-zero-after-tick", "op": oi, "medium": "wireless"})
-                if stray:
-                    oracle.append({"kind": "traffic-inside-pre_timestep", "op": oi})
-                try:
-                    w.net.apply_timestep(t[0])
-                except InexactLoad:
-                    raise
-                except Exception as e:
-                    err = f"{type(e).__name__}: {e}"
-                t[0] += 1
-                forest = rec.take()
-                forests.append(forest)
-                if forest:
-                    lines.append("act " + " ".join(tokens(forest)))
-                    impl.append(" ".join(recs(forest)) + " | " + dump(w))
-            else:
-                try:
+            if "scenario" in case:
+                logging.disable(logging.CRITICAL)
+            try:
+                with _quiet():
                     apply_op(w, op, t)
-                except InexactLoad:
-                    raise
-                except Exception as e:  # an exception out of the simulator is not C18's business, but it is reported
-                    err = f"{type(e).__name__}: {e}"
-                forest = rec.take()
-                forests.append(forest)
-                lines.append(("act " + " ".join(tokens(forest))).strip())
-                impl.append(" ".join(recs(forest)) + " | " + dump(w))
+            except InexactLoad:
+                raise
+            except Exception as e:  # an exception out of the simulator is not C18's business, but it is reported
+                err = f"{type(e).__name__}: {e}"
+            finally:
+                logging.disable(logging.NOTSET)
+            forest = rec.take()
+            seg: List[dict] = []
+            for e in forest:
+                if e["t"] != "T":
+                    seg.append(e)
+                    continue
+                if e["nested"]:
+                    oracle.append({"kind": "tick-inside-a-delivery", "op": oi})
+                if seg:
+                    segment(oi, seg, e["before"])
+                    seg = []
+                lines.append("tick")
+                impl.append(e["after"])
+                if not e["zero"]:
+                    oracle.append({"kind": "load-not-zero-after-tick", "op": oi, "medium": "any"})
+                carried.clear()
+                disabled.clear()
+            if seg or op[0] not in ("tick", "step"):
+                segment(oi, seg, dump(w))
             if err:
                 oracle.append({"kind": "exception", "op": oi, "detail": err})
-            # implementation-side oracle, independent of the model
-            for e in walk(forest):
-                if e["t"] not in ("S", "W"):
-                    continue
-                medium = "wired" if e["t"] == "S" else "wireless"
-                cap = (floor_bytes(w.links[e["k"]].bandwidth) if e["t"] == "S"
-                       else floor_bytes(w.net.airspace.get_frequency_max_capacity_mbps(w.chans[e["k"]][1])))
-                if e["load1"] > cap:
-                    oracle.append({"kind": "load-exceeds-bandwidth", "op": oi, "medium": medium, "k": e["k"], "load": e["load1"], "cap": cap,
-                                   "nested": bool(e["children"])})
-                if e["tx"] and e["sc"] != e["sa"]:
-                    oracle.append({"kind": "admitted-size-differs-from-loaded-size", "op": oi, "medium": medium, "sc": e["sc"], "sa": e["sa"]})
-                if e["tx"] and e["t"] == "S" and not (e["enS"] and e["enR"]):
-                    oracle.append({"kind": "frame-crossed-a-down-link", "op": oi, "medium": medium, "k": e["k"]})
-                if e["tx"] and e["t"] == "W" and not (e["enS"] and all(e.get("rcv_en", []))):
-                    oracle.append({"kind": "frame-crossed-a-down-link", "op": oi, "medium": medium, "k": e["k"]})
-                if e["t"] == "S" and e["tx"] and not e["acc"] and e["children"]:
-                    oracle.append({"kind": "sends-nested-under-a-rejected-frame", "op": oi, "medium": medium, "k": e["k"]})
-                if e["sc"] is not None and not e["can"] and (e["children"] or e["tx"]):
-                    oracle.append({"kind": "refused-frame-was-transmitted", "op": oi, "medium": medium, "k": e["k"]})
-            for k, l in enumerate(w.links):
-                if not l.current_load <= l.bandwidth:
-                    oracle.append({"kind": "load-exceeds-bandwidth", "op": oi, "medium": "wired", "k": k, "load": exact_bytes(l.current_load),
-                                   "cap": floor_bytes(l.bandwidth), "at": "end-of-op"})
-            for hz, name, ifs in w.chans:
-                if not w.net.airspace.bandwidth_load.get(hz, 0.0) <= w.net.airspace.get_frequency_max_capacity_mbps(name):
-                    oracle.append({"kind": "load-exceeds-bandwidth", "op": oi, "medium": "wireless", "k": hz, "at": "end-of-op"})
     lines.append("dump")
     impl.append(dump(w))
+    if getattr(w, "env", None) is not None:
+        try:
+            w.env.close()
+        except Exception:
+            pass
     return {"lines": lines, "impl": impl, "forests": forests, "oracle": oracle}
 
 
@@ -711,8 +802,10 @@ def gen_case(rng: Rng, max_ops: int = 14) -> dict:
             ops.append(["arp", a, ip or "192.168.0.%d" % rng.range(2, 5)])
         elif r < 58:
             ops.append(["burst", a, rng.choice([b, b, "bcast"]), rng.choice([0, 10, 100, 300, 1000, 5000]), rng.choice([1, 2, 3, 6, 12])])
-        elif r < 72:
+        elif r < 70:
             ops.append(["tick"])
+        elif r < 72:
+            ops.append(["power", a, rng.choice(["off", "on"])])
         elif r < 86:
             ops.append(["nic", rng.choice(ifaces), rng.choice(["disable", "enable", "disable"])])
         elif r < 93 and topo["ftp"]:
@@ -723,3 +816,15 @@ def gen_case(rng: Rng, max_ops: int = 14) -> dict:
         else:
             ops.append(["ping", a, b, 1])
     return {"topo": topo, "ops": ops}
+
+
+SCENARIOS = ["data_manipulation.yaml", "data_manipulation.yaml", "uc7_config.yaml"]
+
+
+def gen_scenario_case(rng: Rng, max_steps: int = 30) -> dict:
+    """A shipped scenario (agents, services, database traffic, the red kill chain) with its link bandwidths replaced by a short
+    cycle of values, stepped with random actions."""
+    nbw = rng.range(1, 4)
+    bw = [rng.choice([100.0, 100.0, 10.0, 1.0, 0.05, 0.01, gen_bw(rng, True), 40.0]) for _ in range(nbw)]
+    return {"scenario": {"file": rng.choice(SCENARIOS), "seed": rng.range(1, 10 ** 6), "bw": bw},
+            "ops": [["step", rng.below(10 ** 6) if rng.chance(2, 3) else 0] for _ in range(rng.range(8, max_steps))]}
